@@ -269,7 +269,18 @@ func RunWorld(env *Env, w *World) *Outcome {
 		out.Infra = out2.Infra
 		return out
 	}
-	t1, t2 := out.Stats.Trace, out2.Stats.Trace
+	// outcomes and disk states are compared; the schedule hash is not (it covers the
+	// names of temporary files an implementation may create)
+	noSched := func(t []string) []string {
+		var o []string
+		for _, x := range t {
+			if !strings.Contains(x, " sched ") {
+				o = append(o, x)
+			}
+		}
+		return o
+	}
+	t1, t2 := noSched(out.Stats.Trace), noSched(out2.Stats.Trace)
 	if out.Viol != nil {
 		t1 = append(t1, "VIOL "+out.Viol.Oracle+" "+out.Viol.Item)
 	}
@@ -694,6 +705,9 @@ func (st *wstate) runLifetime(i int, l *scen.Lifetime) {
 		for _, op := range rep.Ops {
 			if op.Seq > rep.CleanBegin && op.Mut {
 				cleanTouched[op.Path] = true
+				if op.Kind == "rename" {
+					cleanTouched[op.Arg] = true // (the target of an atomic replace)
+				}
 			}
 		}
 		// a directory that Clean could not list is simply not examined: only the files in
